@@ -68,6 +68,17 @@ func checkLiteralCase(c LiteralCase) (sig, what string) {
 	if len(res.Matches) != 1 || res.Matches[0].Offset.Start != 0 || res.Matches[0].Offset.End != len(c.Bytes) || res.Matches[0].Value != c.Bytes {
 		return "literal-no-match", fmt.Sprintf("%q on the text %q it denotes: got %s, want exactly [0,%d)", src, c.Bytes, fmtSpans(SpansOf(res.Matches), false), len(c.Bytes))
 	}
+	// the same program read from a file (CompileFile, the CLI's -src) denotes the same bytes
+	if len(c.Bytes) <= 64 {
+		fv, ferr, fp := CompileFileSafe(src)
+		if fp != nil || ferr != nil {
+			return "literal-rejected", fmt.Sprintf("%q compiles from a string but not from a file (%v %v)", src, ferr, fp)
+		}
+		fr := RunSafe(fv, c.Bytes, 100_000)
+		if fr.Panic != nil || len(fr.Matches) != 1 || fr.Matches[0].Value != c.Bytes {
+			return "literal-file-differs", fmt.Sprintf("%q compiled from a file does not match the text %q it denotes (got %s)", src, c.Bytes, fmtSpans(SpansOf(fr.Matches), false))
+		}
+	}
 	// near misses of the same length, and the text with its last byte dropped
 	b := []byte(c.Bytes)
 	for i := range b {
@@ -157,6 +168,11 @@ func TestC16Table(t *testing.T) {
 				run(qs+"a"+sp+"b"+qs, "a"+string([]byte{byte(c)})+"b", kind+"_embedded")
 			}
 		}
+		// raw CR LF pairs inside a literal (a source saved with CR LF line ends)
+		run(qs+"\r\n"+qs, "\r\n", "raw_crlf")
+		run(qs+"a\r\nb\r\n"+qs, "a\r\nb\r\n", "raw_crlf")
+		run(qs+"\\\r\n"+qs, "\r\n", "raw_crlf")
+		run(qs+"\n\r"+qs, "\n\r", "raw_crlf")
 		// the NUL byte can only be spelled with an escape (a raw NUL ends the source)
 		run(qs+"\\x00"+qs, "\x00", "hex_nul")
 		run(qs+"a\\x00b"+qs, "a\x00b", "hex_nul")
